@@ -1,7 +1,9 @@
 (* C14/Property.v — "Passes honour their contract: identity, modified flag, fixpoint, no damage".
    ONLY theorem statements closed by lemmas of Proofs*.v, each followed by Print Assumptions.
-   Full-strength statements that the CODE AS WRITTEN violates are kept in comments next to the proved
-   `_partial` theorem and the `_refuted` witness (replayed on the implementation by harness/props/c14.py). *)
+   The model is the code as it exists after the fix commits 0346f88 (call_onnx_api), fce58f3 (Clear flag),
+   16a8fe8 (DCE count), 733a9c1 (TopologicalSort flag): the statements below are at full strength.  What the code
+   did before those commits (refuting witnesses of the full statements) is recorded in C14_history_before_fixes
+   and replayed on the implementation as ordinary corpus cases by harness/props/c14.py. *)
 From Coq Require Import ZArith List Bool Lia Arith PeanoNat.
 From IRV Require Import Base.Exn Gen.C14Gen C14.Model C14.ProofsInfra C14.ProofsApi C14.ProofsPasses.
 Import ListNotations.
@@ -87,134 +89,66 @@ Proof.
 Qed.
 Print Assumptions C14_functionalize_fresh_and_pure.
 
-(* ================================================================= (e) analysis passes leave the model unchanged.
-   FULL STATEMENT (violated by call_onnx_api_before_fix as written):
-     forall serialize func g, NoDup (g_inits g) ->
-       let g' := fst (call_onnx_api_before_fix _ _ serialize func g) in
-       g_inputs g' = g_inputs g /\ g_inits g' = g_inits g /\ forall u, g_vals g' u = g_vals g u.
-   Proved: the exact post-state, the partial theorem, three refuting witnesses, and the full statement for the
-   repaired function of proposed_fixes/C14-call-onnx-api.diff. *)
-Theorem C14_api_post_state :
-  forall (Proto R : Type) (serialize : gst -> res Proto) (func : Proto -> res R) g p,
-  NoDup (g_inits g) -> serialize (strip g) = Ok p ->
-  let g' := fst (call_onnx_api_before_fix Proto R serialize func g) in
-  g_inputs g' = g_inputs g
-  /\ g_inits g' = filter (fun v => negb (stripped (g_vals g v))) (g_inits g)
-                  ++ filter (fun v => stripped (g_vals g v)) (g_inits g)
-  /\ (forall u, g_vals g' u = if pmem u (g_inits g) then fill (g_vals g u) else g_vals g u)
-  /\ snd (call_onnx_api_before_fix Proto R serialize func g) = func p.
-Proof. exact api_post. Qed.
-Print Assumptions C14_api_post_state.
-
-Theorem C14_analysis_readonly_partial :
-  forall (Proto R : Type) (serialize : gst -> res Proto) (func : Proto -> res R) g p,
-  NoDup (g_inits g) -> serialize (strip g) = Ok p ->
-  (forall v, In v (g_inits g) -> stripped (g_vals g v) = false /\ fill (g_vals g v) = g_vals g v) ->
-  let g' := fst (call_onnx_api_before_fix Proto R serialize func g) in
-  g_inputs g' = g_inputs g /\ g_inits g' = g_inits g /\ forall u, g_vals g' u = g_vals g u.
-Proof. exact api_readonly_partial. Qed.
-Print Assumptions C14_analysis_readonly_partial.
-
-(* initializers i0 (600 floats), i1, i2 come back as i1, i2, i0 although everything succeeded *)
-Theorem C14_analysis_readonly_order_refuted :
-  exists g, NoDup (g_inits g)
-    /\ is_ok (snd (call_onnx_api_before_fix unit unit lazy_serialize (fun _ => Ok tt) g)) = true
-    /\ g_inits (fst (call_onnx_api_before_fix unit unit lazy_serialize (fun _ => Ok tt) g)) <> g_inits g.
-Proof.
-  exists w_order. destruct api_order_witness as [H1 [H2 H3]]. split; [exact H1|]. split; [exact H2|].
-  unfold run_ok in H3. rewrite H3. simpl. intros H; discriminate.
-Qed.
-Print Assumptions C14_analysis_readonly_order_refuted.
-
-(* an initializer without shape/dtype gets them filled in *)
-Theorem C14_analysis_readonly_shape_refuted :
-  exists g u, is_ok (snd (call_onnx_api_before_fix unit unit lazy_serialize (fun _ => Ok tt) g)) = true
-    /\ value_obs (g_vals (fst (call_onnx_api_before_fix unit unit lazy_serialize (fun _ => Ok tt) g)) u) <> value_obs (g_vals g u).
-Proof.
-  exists w_shape, 1%positive. destruct api_shape_witness as [H1 [H2 H3]]. split; [exact H1|].
-  unfold run_ok in H3. rewrite H2, H3. intros H; discriminate.
-Qed.
-Print Assumptions C14_analysis_readonly_shape_refuted.
-
-(* serialization raises (lazy tensor): initializers stay among the inputs, the big one is gone and has lost its tensor *)
-Theorem C14_analysis_readonly_serialization_refuted :
-  exists g, NoDup (g_inits g)
-    /\ is_ok (snd (call_onnx_api_before_fix unit unit lazy_serialize (fun _ => Ok tt) g)) = false
-    /\ g_inputs (fst (call_onnx_api_before_fix unit unit lazy_serialize (fun _ => Ok tt) g)) <> g_inputs g
-    /\ g_inits (fst (call_onnx_api_before_fix unit unit lazy_serialize (fun _ => Ok tt) g)) <> g_inits g.
-Proof.
-  exists w_serfail. destruct api_serfail_witness as [H1 [H2 [H3 _]]].
-  split; [repeat constructor; simpl; intuition congruence|]. split; [exact H1|].
-  unfold run_ok in *. rewrite H2, H3. split; intros H; discriminate.
-Qed.
-Print Assumptions C14_analysis_readonly_serialization_refuted.
-
-(* the repaired function is read-only for EVERY outcome of serialization and of the ONNX call *)
-Theorem C14_analysis_readonly_fixed :
+(* ================================================================= (e) analysis passes leave the model unchanged:
+   for EVERY behaviour of serialization (may raise) and of the ONNX call (may raise), the graph inputs, the
+   initializer ORDER and every value (tensor object, shape, dtype) are exactly as before call_onnx_api. *)
+Theorem C14_analysis_readonly :
   forall (Proto R : Type) (serialize : gst -> res Proto) (func : Proto -> res R) g,
   NoDup (g_inits g) ->
   let g' := fst (call_onnx_api Proto R serialize func g) in
   g_inputs g' = g_inputs g /\ g_inits g' = g_inits g /\ forall u, g_vals g' u = g_vals g u.
-Proof. exact api_fixed_readonly. Qed.
-Print Assumptions C14_analysis_readonly_fixed.
+Proof. exact api_readonly. Qed.
+Print Assumptions C14_analysis_readonly.
 
-(* ================================================================= (b)+(c) per pass: flag soundness and fixpoint.
-   FULL STATEMENT per pass P:  snd (P m) = false -> fst (P m) = m   (the model state IS what is serialized). *)
+(* ... and the exception of either step is what the caller sees *)
+Theorem C14_analysis_outcome :
+  forall (Proto R : Type) (serialize : gst -> res Proto) (func : Proto -> res R) g,
+  snd (call_onnx_api Proto R serialize func g)
+  = match serialize (strip g) with Ok p => func p | Raise e => Raise e end.
+Proof. exact api_result. Qed.
+Print Assumptions C14_analysis_outcome.
 
-(* ClearMetadataAndDocStringPass — full statement refuted (node doc strings are cleared but not counted) *)
-Theorem C14_flag_sound_clear_partial :
-  forall m, Forall docless m -> snd (clear_pass_before_fix m) = false -> fst (clear_pass_before_fix m) = m.
-Proof. exact clear_flag_sound_partial. Qed.
-Print Assumptions C14_flag_sound_clear_partial.
+(* ================================================================= (b) modified=False only if the model is unchanged
+   (the model state IS what is serialized), and (c) fixpoint, per modelled pass *)
 
-Theorem C14_flag_sound_clear_refuted : exists m, snd (clear_pass_before_fix m) = false /\ fst (clear_pass_before_fix m) <> m.
-Proof. exists w_clear. exact clear_flag_refuted_witness. Qed.
-Print Assumptions C14_flag_sound_clear_refuted.
+(* ClearMetadataAndDocStringPass *)
+Theorem C14_flag_sound_clear : forall m, snd (clear_pass m) = false -> fst (clear_pass m) = m.
+Proof. exact clear_flag_sound. Qed.
+Print Assumptions C14_flag_sound_clear.
 
 Theorem C14_converges_clear :
-  forall m, snd (clear_pass_before_fix (fst (clear_pass_before_fix m))) = false
-            /\ fst (clear_pass_before_fix (fst (clear_pass_before_fix m))) = fst (clear_pass_before_fix m).
+  forall m, snd (clear_pass (fst (clear_pass m))) = false
+            /\ fst (clear_pass (fst (clear_pass m))) = fst (clear_pass m).
 Proof. exact clear_converges. Qed.
 Print Assumptions C14_converges_clear.
 
-(* RemoveUnusedNodesPass (flat graphs) — full statement refuted (trailing None inputs trimmed, not counted) *)
-Theorem C14_flag_sound_dce_partial :
-  forall g, Forall (fun n => trim (d_ins n) = d_ins n) (d_nodes g) -> snd (dce_before_fix g) = false -> fst (dce_before_fix g) = g.
-Proof. exact dce_flag_sound_partial. Qed.
-Print Assumptions C14_flag_sound_dce_partial.
+(* RemoveUnusedNodesPass (flat graphs: node sweep, trailing-None trimming, initializer removal) *)
+Theorem C14_flag_sound_dce : forall g, snd (dce g) = false -> fst (dce g) = g.
+Proof. exact dce_flag_sound. Qed.
+Print Assumptions C14_flag_sound_dce.
 
-Theorem C14_flag_sound_dce_refuted : exists g, snd (dce_before_fix g) = false /\ fst (dce_before_fix g) <> g.
-Proof. exists w_dce. exact dce_flag_refuted_witness. Qed.
-Print Assumptions C14_flag_sound_dce_refuted.
-
-(* measure = nodes + initializers; within size+1 rounds: reports False and changes nothing *)
+(* measure = nodes + initializers + kept nodes with trailing None inputs; within measure+1 rounds the pass
+   reports False and changes nothing (unsorted graphs need several rounds: C14_example_dce_two_rounds) *)
 Theorem C14_converges_dce :
-  forall g, exists k, k <= dce_size g + 1 /\ snd (dce_before_fix (iterE dgraph dce_before_fix k g)) = false
-                      /\ fst (dce_before_fix (iterE dgraph dce_before_fix k g)) = iterE dgraph dce_before_fix k g.
+  forall g, exists k, k <= dce_mu g + 1 /\ snd (dce (iterE dgraph dce k g)) = false
+                      /\ fst (dce (iterE dgraph dce k g)) = iterE dgraph dce k g.
 Proof. exact dce_converges. Qed.
 Print Assumptions C14_converges_dce.
 
-(* TopologicalSortPass over any length-preserving sort — full statement refuted (a reordered subgraph is not compared) *)
-Theorem C14_flag_sound_toposort_partial :
-  forall sort, (forall l, length (sort l) = length l) ->
-  forall m, t_subs m = [] -> snd (topo_pass_before_fix sort m) = false -> fst (topo_pass_before_fix sort m) = m.
-Proof. exact topo_flag_sound_partial. Qed.
-Print Assumptions C14_flag_sound_toposort_partial.
-
-Theorem C14_flag_sound_toposort_refuted :
-  exists sort m, (forall l, length (sort l) = length l) /\ (forall l, sort (sort l) = sort l)
-                 /\ snd (topo_pass_before_fix sort m) = false /\ fst (topo_pass_before_fix sort m) <> m.
-Proof. exists w_sort, w_topo. exact topo_flag_refuted_witness. Qed.
-Print Assumptions C14_flag_sound_toposort_refuted.
+(* TopologicalSortPass, for EVERY sort function (Graph.sort is C12's) *)
+Theorem C14_flag_sound_toposort :
+  forall sort m, snd (topo_pass sort m) = false -> fst (topo_pass sort m) = m.
+Proof. exact topo_flag_sound. Qed.
+Print Assumptions C14_flag_sound_toposort.
 
 Theorem C14_converges_toposort :
   forall sort, (forall l, sort (sort l) = sort l) ->
-  forall m, snd (topo_pass_before_fix sort (fst (topo_pass_before_fix sort m))) = false
-            /\ fst (topo_pass_before_fix sort (fst (topo_pass_before_fix sort m))) = fst (topo_pass_before_fix sort m).
+  forall m, snd (topo_pass sort (fst (topo_pass sort m))) = false
+            /\ fst (topo_pass sort (fst (topo_pass sort m))) = fst (topo_pass sort m).
 Proof. intros sort H m. apply topo_converges. exact H. Qed.
 Print Assumptions C14_converges_toposort.
 
-(* Add/RemoveInitializers(To/From)InputsPass — full statement holds *)
+(* Add/RemoveInitializers(To/From)InputsPass *)
 Theorem C14_flag_sound_inits_inputs :
   forall m, (snd (io_pass add_inits m) = false -> fst (io_pass add_inits m) = m)
             /\ (snd (io_pass rm_inits m) = false -> fst (io_pass rm_inits m) = m).
@@ -233,25 +167,40 @@ Proof.
 Qed.
 Print Assumptions C14_converges_inits_inputs.
 
-(* ================================================================= the repaired flag computations
-   (proposed_fixes/C14-*.diff; selected by the harness for a finding whose status is "fixed"): FULL statement *)
-Theorem C14_flag_sound_fixed :
-  (forall m, snd (clear_pass m) = false -> fst (clear_pass m) = m)
-  /\ (forall g, snd (dce g) = false -> fst (dce g) = g)
-  /\ (forall sort m, snd (topo_pass sort m) = false -> fst (topo_pass sort m) = m).
-Proof. split; [exact clear_fixed_flag_sound | split; [exact dce_fixed_flag_sound | exact topo_fixed_flag_sound]]. Qed.
-Print Assumptions C14_flag_sound_fixed.
+(* ================================================================= history: what the fixes repaired.
+   The models of the code before the fix commits violate the statements above on these witnesses, and the
+   current models do not (the same inputs are corpus cases replayed on the implementation on every run). *)
+Theorem C14_history_before_fixes :
+  (* 0346f88: initializers i0 (600 floats), i1, i2 came back as i1, i2, i0; shape/dtype were filled in;
+     a raising serialization left the initializers among the inputs and the big one removed *)
+  g_inits (fst (run_ok w_order)) = [2; 3; 1]%positive
+  /\ value_obs (g_vals (fst (run_ok w_shape)) 1%positive) <> value_obs (g_vals w_shape 1%positive)
+  /\ (g_inputs (fst (run_ok w_serfail)) = [10; 1; 2]%positive /\ g_inits (fst (run_ok w_serfail)) = [2]%positive)
+  /\ (gst_obs [1; 2; 3; 10]%positive (fst (run_now w_order)) = gst_obs [1; 2; 3; 10]%positive w_order
+      /\ gst_obs [1; 10]%positive (fst (run_now w_shape)) = gst_obs [1; 10]%positive w_shape
+      /\ gst_obs [1; 2; 10]%positive (fst (run_now w_serfail)) = gst_obs [1; 2; 10]%positive w_serfail)
+  (* fce58f3, 16a8fe8, 733a9c1: modified=False although the model changed *)
+  /\ (snd (clear_pass_before_fix w_clear) = false /\ fst (clear_pass_before_fix w_clear) <> w_clear /\ snd (clear_pass w_clear) = true)
+  /\ (snd (dce_before_fix w_dce) = false /\ fst (dce_before_fix w_dce) <> w_dce /\ snd (dce w_dce) = true)
+  /\ (snd (topo_pass_before_fix w_sort w_topo) = false /\ fst (topo_pass_before_fix w_sort w_topo) <> w_topo
+      /\ snd (topo_pass w_sort w_topo) = true).
+Proof.
+  destruct api_order_witness as [_ [_ H1]]. destruct api_shape_witness as [_ [H2a H2b]].
+  destruct api_serfail_witness as [_ [H3a [H3b _]]]. destruct api_witnesses_now as [N1 [N2 [N3 _]]].
+  split; [exact H1|]. split; [rewrite H2a, H2b; intros H; discriminate|]. split; [split; assumption|].
+  split; [repeat split; assumption|].
+  split; [exact clear_before_fix_witness|]. split; [exact dce_before_fix_witness | exact topo_before_fix_witness].
+Qed.
+Print Assumptions C14_history_before_fixes.
 
 (* Non-vacuity: hypotheses met by concrete, non-trivial states *)
-Example C14_example_partial_hypotheses :
-  let g := {| g_inputs := [10%positive]; g_inits := [2; 3]%positive;
-              g_vals := mk_vals [(2%positive, typed (small_t 101)); (3%positive, typed (small_t 102))] |} in
-  NoDup (g_inits g) /\ lazy_serialize (strip g) = Ok tt
-  /\ forall v, In v (g_inits g) -> stripped (g_vals g v) = false /\ fill (g_vals g v) = g_vals g v.
-Proof.
-  simpl. split; [repeat constructor; simpl; intuition congruence|]. split; [reflexivity|].
-  intros v [H|[H|[]]]; subst; split; reflexivity.
-Qed.
+Example C14_example_readonly_hypotheses :
+  (* big + small + raising lazy initializer, one of them also a graph input: NoDup holds, serialization raises *)
+  let g := {| g_inputs := [10; 2]%positive; g_inits := [1; 2; 3]%positive;
+              g_vals := mk_vals [(1%positive, typed (big_t 100)); (2%positive, untyped (small_t 101)); (3%positive, typed (lazy_bad_t 102))] |} in
+  NoDup (g_inits g) /\ lazy_serialize (strip g) = Raise OtherError
+  /\ gst_obs [1; 2; 3; 10]%positive (fst (call_onnx_api unit unit lazy_serialize (fun _ => Ok tt) g)) = gst_obs [1; 2; 3; 10]%positive g.
+Proof. simpl. split; [repeat constructor; simpl; intuition congruence|]. split; vm_compute; reflexivity. Qed.
 
 Example C14_example_dce_two_rounds :
   (* an unsorted graph: the dead consumer n1 precedes its dead producer n2 -> two modifying rounds *)
@@ -259,5 +208,5 @@ Example C14_example_dce_two_rounds :
                            {| d_id := 2; d_ins := [Some 10]; d_outs := [21] |};
                            {| d_id := 3; d_ins := [Some 10]; d_outs := [30] |} ]%positive;
               d_outputs := [30%positive]; d_inputs := [10%positive]; d_inits := [] |} in
-  snd (dce_before_fix g) = true /\ snd (dce_before_fix (fst (dce_before_fix g))) = true /\ snd (dce_before_fix (iterE dgraph dce_before_fix 2 g)) = false.
+  snd (dce g) = true /\ snd (dce (fst (dce g))) = true /\ snd (dce (iterE dgraph dce 2 g)) = false.
 Proof. vm_compute. repeat split; reflexivity. Qed.
